@@ -97,6 +97,10 @@ class Ctx:
         open_keys = {k["key"] for k in load_known().get("open", []) if k["property"] == self.prop}
         failed = {f["rule"] for f in self.findings if Ctx.key(f) not in open_keys}
         low = [(r, counts[r], f) for r, f in self.floors.items() if counts[r] < f and r not in failed]
+        if low and failed:
+            # the run already reports a violation of another rule: the shortfall must not turn that verdict into "analysis broken"
+            self.floor_notes = ["%s: %d < %d" % x for x in low]
+            return counts
         if low:
             raise AnalysisError(
                 "rule instance count below floor (extractor no longer sees the code it was confirmed on): "
